@@ -139,7 +139,8 @@ def _check_case_inner(ctx, case):
             p2, _ = real(f, x, y, bounds=[0, np.inf], p0=np.maximum(np.array(cof), 1e-12))
         o1, o2 = obj(cof), obj(p2)
         tss = float(np.sum(y ** 2))
-        if o1 - o2 > 1e-4 * o1 and o1 - o2 > 1e-6 * tss:
+        # "noticeably": one per cent (SciPy stops within its default tolerances: drops of 1e-4 relative occur on unchanged code)
+        if o1 - o2 > 1e-2 * o1 and o1 - o2 > 1e-6 * tss:
             ctx.violation('not-locally-optimal', 're-optimising from %r lowers the objective from %r to %r' % (cof, o1, o2), case)
     except Exception:
         pass
